@@ -12,6 +12,7 @@ import SeliumModel.Lemmas.PubSubHealthy
 import SeliumModel.Lemmas.PubSubSettle
 import SeliumModel.Lemmas.ReqRepMore
 import SeliumModel.Lemmas.ReqRepQuiet
+import SeliumModel.Lemmas.ReqRepSettle
 
 namespace Selium.Route
 open Selium.Sink
@@ -131,6 +132,38 @@ theorem c09_reqrep_no_unflushed_work (fuel : Nat) (s : RR) (h : (rrPoll fuel s).
     ∀ r, (rrPoll fuel s).2.server = some r → r.sink.flushed = r.sink.got.length :=
   (rrPoll_quiet fuel s).1 h
 
+/-- Across polls: no poll of the request/reply router adds to what its peers can still make it wait for or work on
+    (`rmeasure`: queued registrations, what the requestor streams and the replier stream hold, buffered frames, a
+    pending rejection, and the readiness / flush / close answers held by every requestor sink, the replier's sink,
+    a rejected replier's sink), and a poll that ends blocked on one of those sinks has used one of its answers up. -/
+theorem c09_reqrep_blocked_poll_makes_progress (fuel : Nat) (s : RR) :
+    rmeasure (rrPoll fuel s).2 ≤ rmeasure s ∧
+    ((rrPoll fuel s).1.isBlocked = true → rmeasure (rrPoll fuel s).2 < rmeasure s) := rrPoll_meas fuel s
+
+/-- Hence under a wake-driven executor (polled again only because a sink that answered Pending fired the waker)
+    the router is never blocked for ever: from any state, for all scripts of all peers and all `StreamMap` / `HashMap`
+    orders, within `rmeasure s` further polls a poll ends idle, waiting or finished — and if it ends waiting, no reply
+    is held back and every requestor sink and the replier's sink is flushed. -/
+theorem c09_reqrep_wake_driven_executor_unblocks (s : RR) (orc : Nat → List Nat × List Nat) :
+    ∃ n, n ≤ rmeasure s ∧
+      (rrPoll (rwork (rrRunPolls orc n s) + 1) (withOracles (rrRunPolls orc n s) (orc n))).1.isBlocked = false ∧
+      ((rrPoll (rwork (rrRunPolls orc n s) + 1) (withOracles (rrRunPolls orc n s) (orc n))).1 = .waiting →
+        Flushed (rrPoll (rwork (rrRunPolls orc n s) + 1) (withOracles (rrRunPolls orc n s) (orc n))).2) := by
+  obtain ⟨n, hn, hb⟩ := rrRunPolls_unblocks s orc
+  exact ⟨n, hn, hb, (rrPoll_quiet _ _).1⟩
+
+/-! Non-vacuity: a requestor whose sink answers Pending to readiness twice and to the flush once, a replier with a
+    reply for it: the first three polls end blocked on the requestor, the fourth delivers and flushes the reply
+    (both peers have gone by then: it ends idle). -/
+def exRRSettle : RR :=
+  { queue := [.client { id := 0, readyQ := [.pending, .pending], flushQ := [.pending] } [.pending],
+              .server { id := 0 } [.item (.msg (some [("cid", "0")]) 5), .pending]] }
+
+example : (rrPoll 30 exRRSettle).1 = .blockedOnRequestor ∧
+    (rrPoll 30 (rrRunPolls (fun _ => ([], [])) 3 exRRSettle)).1 = .idle ∧
+    (rrRunPolls (fun _ => ([], [])) 4 exRRSettle).sinks.map (fun k => (k.got, k.flushed)) = [([.msg none 5], 1)] := by
+  decide +kernel
+
 example : (rrPoll 20 ({ queue := [.client { id := 0 } [.pending]] } : RR)).1 = .waiting := by decide +kernel
 example : (rrPoll 20 ({ queue := [.server { id := 0 } [.pending]] } : RR)).1 = .waiting := by decide +kernel
 
@@ -147,3 +180,5 @@ end Selium.Route
 #print axioms Selium.Route.c09_reqrep_iteration_progress
 #print axioms Selium.Route.c09_reqrep_channel_drained
 #print axioms Selium.Route.c09_reqrep_no_unflushed_work
+#print axioms Selium.Route.c09_reqrep_blocked_poll_makes_progress
+#print axioms Selium.Route.c09_reqrep_wake_driven_executor_unblocks
